@@ -183,19 +183,37 @@ fn compare_values_with_nulls(
 }
 
 /// Compares two values.
+///
+/// This is a total order (sorting requires one): numbers compare numerically with
+/// NaN after every other number, and values of different kinds are ordered by kind.
 fn compare_values(a: &Value, b: &Value) -> Ordering {
+    fn cmp_f64(a: f64, b: f64) -> Ordering {
+        match (a.is_nan(), b.is_nan()) {
+            (true, true) => Ordering::Equal,
+            (true, false) => Ordering::Greater,
+            (false, true) => Ordering::Less,
+            (false, false) => a.partial_cmp(&b).unwrap_or(Ordering::Equal),
+        }
+    }
+    fn kind_rank(v: &Value) -> u8 {
+        match v {
+            Value::Null => 0,
+            Value::Bool(_) => 1,
+            Value::Int64(_) | Value::Float64(_) => 2,
+            Value::String(_) => 3,
+            Value::Timestamp(_) => 4,
+            _ => 5,
+        }
+    }
     match (a, b) {
         (Value::Bool(a), Value::Bool(b)) => a.cmp(b),
         (Value::Int64(a), Value::Int64(b)) => a.cmp(b),
-        (Value::Float64(a), Value::Float64(b)) => a.partial_cmp(b).unwrap_or(Ordering::Equal),
+        (Value::Float64(a), Value::Float64(b)) => cmp_f64(*a, *b),
         (Value::String(a), Value::String(b)) => a.cmp(b),
-        (Value::Int64(a), Value::Float64(b)) => {
-            (*a as f64).partial_cmp(b).unwrap_or(Ordering::Equal)
-        }
-        (Value::Float64(a), Value::Int64(b)) => {
-            a.partial_cmp(&(*b as f64)).unwrap_or(Ordering::Equal)
-        }
-        _ => Ordering::Equal,
+        (Value::Timestamp(a), Value::Timestamp(b)) => a.cmp(b),
+        (Value::Int64(a), Value::Float64(b)) => cmp_f64(*a as f64, *b),
+        (Value::Float64(a), Value::Int64(b)) => cmp_f64(*a, *b as f64),
+        _ => kind_rank(a).cmp(&kind_rank(b)),
     }
 }
 
